@@ -6,6 +6,7 @@
 //! The three texts are written into a fresh directory under `harness/target/tmp/` (gene file under
 //! the name the chosen loader reads), loaded with `Ontology::from_standard` /
 //! `from_standard_transitive` under `catch_unwind`, and the directory is removed again.
+use hpo::annotations::AnnotationId;
 use crate::interp::Interp;
 use crate::proto::*;
 use hpo::Ontology;
@@ -53,8 +54,76 @@ pub fn load_dir(transitive: bool, obo: &[u8], gene: &[u8], hpoa: &[u8]) -> Loade
     }
 }
 
+/// 70 000 `[Term]` stanzas (HP:1 <- HP:118 <- every other term, ids in random order), a few gene
+/// and disease rows on terms late in the file: implementation against the harness oracle only
+fn big_obo(n: u32, seed: u64, transitive: bool) -> Result<(), String> {
+    let mut rng = crate::rng::Rng::new(seed);
+    let mut ids: std::collections::BTreeSet<u32> = std::collections::BTreeSet::new();
+    while (ids.len() as u32) < n {
+        let id = 2 + rng.below(9_999_997) as u32;
+        if id != 118 {
+            ids.insert(id);
+        }
+    }
+    let mut order: Vec<u32> = ids.iter().copied().collect();
+    rng.shuffle(&mut order);
+    let mut obo = String::from("format-version: 1.2\ndata-version: hp/releases/2024-01-01\n\n");
+    obo.push_str("[Term]\nid: HP:0000001\nname: All\n\n[Term]\nid: HP:0000118\nname: Phenotypic abnormality\nis_a: HP:0000001 ! All\n\n");
+    for id in &order {
+        obo.push_str(&format!("[Term]\nid: HP:{id:07}\nname: t{id}\nis_a: HP:0000118 ! Phenotypic abnormality\n\n"));
+    }
+    let late: Vec<u32> = order.iter().rev().take(5).copied().collect();
+    let mut genes = String::from(if transitive { "hpo_id\thpo_name\tncbi_gene_id\tgene_symbol\n" } else { "ncbi_gene_id\tgene_symbol\thpo_id\thpo_name\n" });
+    let mut hpoa = String::from("database_id\tdisease_name\tqualifier\thpo_id\n");
+    for (i, t) in late.iter().enumerate() {
+        if transitive {
+            genes.push_str(&format!("HP:{t:07}\tt{t}\t{}\tG{}\n", 10 + i, 10 + i));
+        } else {
+            genes.push_str(&format!("{}\tG{}\tHP:{t:07}\tt{t}\n", 10 + i, 10 + i));
+        }
+        hpoa.push_str(&format!("OMIM:{}\tD{}\t\tHP:{t:07}\n", 100 + i, 100 + i));
+    }
+    let o = match load_dir(transitive, obo.as_bytes(), genes.as_bytes(), hpoa.as_bytes()) {
+        Loaded::Ok(o) => o,
+        Loaded::Err => return Err("loading the big hp.obo returned an error".to_string()),
+        Loaded::Panic => return Err("loading the big hp.obo panicked".to_string()),
+    };
+    if o.len() != ids.len() + 2 {
+        return Err(format!("{} terms loaded, the file has {}", o.len(), ids.len() + 2));
+    }
+    for id in order.iter().rev().take(3000).chain(order.iter().take(50)) {
+        let t = o.hpo(*id).ok_or(format!("HP:{id:07} of the file does not resolve"))?;
+        let p: Vec<u32> = t.parent_ids().iter().map(|x| x.as_u32()).collect();
+        let a: Vec<u32> = t.all_parent_ids().iter().map(|x| x.as_u32()).collect();
+        if t.name() != format!("t{id}") || p != vec![118] || a != vec![1, 118] {
+            return Err(format!("HP:{id:07}: name {:?}, parents {p:?}, ancestors {a:?}", t.name()));
+        }
+    }
+    for (i, t) in late.iter().enumerate() {
+        let term = o.hpo(*t).ok_or("late term missing")?;
+        let g: Vec<u32> = term.gene_ids().iter().map(|x| x.as_u32()).collect();
+        let d: Vec<u32> = term.omim_disease_ids().iter().map(|x| x.as_u32()).collect();
+        if g != vec![10 + i as u32] || d != vec![100 + i as u32] {
+            return Err(format!("annotations of the late term HP:{t:07}: genes {g:?}, OMIM {d:?}"));
+        }
+    }
+    let root_genes = o.hpo(1u32).ok_or("root missing")?.gene_ids().len();
+    if root_genes != late.len() {
+        return Err(format!("the root inherits {root_genes} genes, expected {}", late.len()));
+    }
+    Ok(())
+}
+
 pub fn exec(it: &mut Interp, toks: &[&str], out: &mut Vec<String>) -> bool {
     match toks {
+        ["bigobo", n, seed, mode] => {
+            let (Ok(n), Ok(seed)) = (n.parse::<u32>(), seed.parse::<u64>()) else { return false };
+            match big_obo(n, seed, *mode == "transitive") {
+                Ok(()) => out.push("oracle ok".to_string()),
+                Err(e) => out.push(format!("oracle FAIL bigobo: {e}")),
+            }
+            true
+        }
         [op @ ("jax" | "jaxm"), slot, mode, obo, gene, hpoa] => {
             let transitive = match *mode {
                 "std" => false,
